@@ -426,14 +426,19 @@ class PushFailure(RuntimeError):
     pass
 
 
+class PushAbort(BaseException):
+    """a failure that is not an `Exception` (the per-callback `except Exception` does not contain it)"""
+
+
 class Push(rig.RecPush):
     """recording push service; `fail` = the attempts (0-based count of pushes of DEFERRED snapshots) that raise after
     having been recorded — a fault exactly at the completion of a deferred capture (closed / full task handler)."""
 
-    def __init__(self, obs, fail=()):
+    def __init__(self, obs, fail=(), base=False):
         super().__init__()
         self.obs = obs
         self.fail = set(fail)
+        self.base = base
         self.attempts = 0
 
     def push_snapshot(self, s):
@@ -454,6 +459,8 @@ class Push(rig.RecPush):
             self.attempts += 1
             self.obs.note('cap-close', s.tracepoint.id, sid=sid, open=self.obs.opened[sid], cap=cap, vars=names,
                           snapline=(s.frames[0].line_number if s.frames else None), failed=(n in self.fail))
+            if n in self.fail and self.base:
+                raise PushAbort('push of the deferred snapshot aborted (attempt %d)' % n)
             if n in self.fail:
                 raise PushFailure('push of the deferred snapshot failed (attempt %d)' % n)
         else:
@@ -1072,7 +1079,7 @@ def run_case(case, hooks=False):
         import deep.processor.frame_collector as _fc
         fc_orig = _fc.time_ns
         _fc.time_ns = r._now
-        r.handler._push_service = Push(obs, case.get('push_fail', ()))
+        r.handler._push_service = Push(obs, case.get('push_fail', ()), base=case.get('push_fail_kind') == 'base')
         holder['r'] = r
         # hermetic cases: should the thread-local store ever be process-wide again (a class-level dict keyed by
         # thread ident, D3), what earlier cases left in it must not decide this case's verdict — inheritance is
